@@ -242,7 +242,7 @@ CHECKS["C06"] = {
 
 
 def _mor(func, chunk, ns, rec=0, faults=0, **kw):
-    p = {"chunk": chunk, "cycles": len(ns), "rec": rec, "faults": faults}
+    p = {"chunk": chunk, "cycles": len(ns), "rec": rec, "faults": faults, "symmask": kw.pop("symmask", -1)}
     for i, n in enumerate(ns):
         p["n%d" % i] = n
     j = {"pkgdir": "morass", "func": func, "params": p, "sched": "det", "fsmodel": True, "max_faults": faults}
@@ -260,6 +260,10 @@ def c11_jobs(tier):
     for (c, ns) in hist:
         jobs.append(_mor("VerifC11_History", c, ns))
     jobs.append(_mor("VerifC11_History", 2, [3], rec=1))
+    # longer cycles over many run files: mostly concrete values, the values selected by the mask symbolic
+    for (c, ns, mask) in ([(3, [12], 0b100000010), (4, [14], 0b10000001000)] if tier == "quick" else
+                          [(3, [12], 0b100000010), (4, [14], 0b10000001000), (3, [12], 0b100000010010), (4, [14], 0b10000001000001), (2, [16], 0b100000100), (5, [18], 0b100100)]):
+        jobs.append(_mor("VerifC11_History", c, ns, symmask=mask))
     if tier == "thorough":
         jobs.append(_mor("VerifC11_History", 2, [1, 3], rec=1))
     return jobs
@@ -307,11 +311,15 @@ def c16_jobs(tier):
     shapes = [(2, 1, 4, 3), (2, 2, 3, 2)] if tier == "quick" else [(2, 1, 6, 4), (2, 2, 4, 3), (2, 2, 6, 4), (2, 1, 9, 6), (3, 1, 1, 1), (3, 1, 1, 2), (3, 2, 1, 1), (3, 1, 2, 1)]
     for (p, l, ms, ml) in shapes:
         jobs.append({"pkgdir": "align/pals", "func": "VerifC16_Piles", "math": True,
-                     "params": {"pairs": p, "locs": l, "maxstart": ms, "maxlen": ml, "minlen": 1}, "timeout_s": 900 if tier == "quick" else 3300})
+                     "params": {"pairs": p, "locs": l, "maxstart": ms, "maxlen": ml, "minlen": 1, "concrete": 0}, "timeout_s": 900 if tier == "quick" else 3300})
+    # more pairs: the first `concrete` pairs have a fixed layout, the remaining pair is symbolic (insertion order still symbolic)
+    for (p, l, ms, ml, conc) in ([(4, 1, 8, 3, 3), (3, 2, 6, 3, 2)] if tier == "quick" else [(4, 1, 8, 3, 3), (3, 2, 6, 3, 2), (5, 2, 9, 3, 4), (4, 2, 8, 4, 3)]):
+        jobs.append({"pkgdir": "align/pals", "func": "VerifC16_Piles", "math": True,
+                     "params": {"pairs": p, "locs": l, "maxstart": ms, "maxlen": ml, "minlen": 1, "concrete": conc}, "timeout_s": 900 if tier == "quick" else 3300})
     # zero-length features (they abut what they touch, nothing else)
     for (p, l, ms, ml) in ([(2, 1, 4, 2)] if tier == "quick" else [(2, 1, 4, 2), (2, 2, 3, 2)]):
         jobs.append({"pkgdir": "align/pals", "func": "VerifC16_Piles", "math": True,
-                     "params": {"pairs": p, "locs": l, "maxstart": ms, "maxlen": ml, "minlen": 0}, "timeout_s": 900 if tier == "quick" else 3300})
+                     "params": {"pairs": p, "locs": l, "maxstart": ms, "maxlen": ml, "minlen": 0, "concrete": 0}, "timeout_s": 900 if tier == "quick" else 3300})
     return jobs
 
 
